@@ -5,6 +5,10 @@
 (*   split span / split before page numbers: the parts in output order with the names the API gives *)
 (*   them (from-thru) and their marker sequences - their concatenation is the original sequence;    *)
 (*   merge create / append / zip: the marker sequence of the result ("" = blank divider page).      *)
+(* Every operation is explored in its file variant (api = "file") and, where the API offers one, in its   *)
+(* stream variant (api = "raw": SplitRaw, MergeRaw, ExtractPages with a digest function - the harness       *)
+(* reads the returned readers only after the call has returned), split along bookmarks included, and        *)
+(* under the configuration switches Doc!Confs (which never change what must come out).                      *)
 (* TLC checks the design properties of the model (PartsOK, MergeOK) and prints every case as JSON;  *)
 (* harness/cmd/pageops c33 replays them with the real API.                                          *)
 EXTENDS DocTrees, Json, Randomization
@@ -18,6 +22,11 @@ CONSTANTS SplitNs,     \* page counts for split by span (x Spans)
           MergeMax,    \* 1..MergeMax documents are merged
           AppendMax,   \* append mode: 1..AppendMax documents are appended to an existing one
           ZipSizes,
+          RawNs,       \* page counts for SplitRaw (x RawSpans) and for the split along bookmarks
+          RawSpans,
+          BmNs,        \* page counts for which all bookmark lists of <= 3 bookmarks are enumerated
+          SmallMax,    \* merges of <= SmallMax documents are repeated under the other configurations and as MergeRaw
+          ExtractNs,
           Emit
 VARIABLE c
 vars == <<docvars, c>>
@@ -26,40 +35,67 @@ Marks(t)      == LET ps == TreePages(t) IN [i \in 1..Len(ps) |-> ps[i].mark]
 DocTree(d, n) == Shape(n, ((d + n) % NShapes) + 1, "d" \o ToString(d) \o "p")
 Blank0        == ""
 
-Base == [kind |-> "", trees |-> <<>>, span |-> 0, nrs |-> <<>>, mode |-> "", divider |-> FALSE, res |-> "ok",
-         parts |-> <<>>, exp |-> <<>>]
+Base == [kind |-> "", api |-> "file", conf |-> Confs[1], trees |-> <<>>, span |-> 0, nrs |-> <<>>, sel |-> <<>>, mode |-> "",
+         divider |-> FALSE, res |-> "ok", parts |-> <<>>, exp |-> <<>>]
 PartRecs(ms, spans) == [k \in 1..Len(spans) |-> [from |-> spans[k][1], thru |-> spans[k][2], marks |-> PartOf(ms, spans[k])]]
+CF(i) == Confs[((i - 1) % Len(Confs)) + 1]
 
-SplitCase(n, span) ==
+SplitCase(n, span, api, ci) ==
   LET t == Shape(n, ((n + span) % NShapes) + 1, "p") IN
-  [Base EXCEPT !.kind = "split", !.trees = <<t>>, !.span = span, !.parts = PartRecs(Marks(t), SplitSpans(n, span))]
+  [Base EXCEPT !.kind = "split", !.api = api, !.conf = CF(ci), !.trees = <<t>>, !.span = span,
+               !.parts = PartRecs(Marks(t), SplitSpans(n, span))]
 SplitNrCase(n, nrs) ==
   LET t == Shape(n, ((n + Len(nrs)) % NShapes) + 1, "p") IN
   IF SplitNrsOK(n, nrs)
-    THEN [Base EXCEPT !.kind = "splitnr", !.trees = <<t>>, !.nrs = nrs, !.parts = PartRecs(Marks(t), SplitAtSpans(n, nrs))]
-    ELSE [Base EXCEPT !.kind = "splitnr", !.trees = <<t>>, !.nrs = nrs, !.res = "refuse"]
+    THEN [Base EXCEPT !.kind = "splitnr", !.conf = CF(n + Len(nrs)), !.trees = <<t>>, !.nrs = nrs,
+                      !.parts = PartRecs(Marks(t), SplitAtSpans(n, nrs))]
+    ELSE [Base EXCEPT !.kind = "splitnr", !.conf = CF(n + Len(nrs)), !.trees = <<t>>, !.nrs = nrs, !.res = "refuse"]
+(* split along the top-level bookmarks pointing at the pages bms (strictly increasing): one part per bookmark, from its *)
+(* page up to the page before the next bookmark's, the last one up to the end; pages before the first bookmark are in   *)
+(* no part.  The document carries an outline with these bookmarks (titles bm1, bm2, ...).                               *)
+BmSpans(n, bms) == [k \in 1..Len(bms) |-> <<bms[k], IF k < Len(bms) THEN bms[k + 1] - 1 ELSE n>>]
+SplitBmCase(n, bms, api) ==
+  LET t == Shape(n, ((n + Len(bms)) % NShapes) + 1, "p") IN
+  [Base EXCEPT !.kind = "splitbm", !.api = api, !.conf = CF(n + bms[1]), !.trees = <<t>>, !.nrs = bms,
+               !.parts = PartRecs(Marks(t), BmSpans(n, bms))]
+(* every selected page as a document of its own, in ascending page order *)
+ExtractCase(n, ts, ci) ==
+  LET t == Shape(n, ((n + Len(ts)) % NShapes) + 1, "p")
+      S == SelAsc(SelOrAll(n, ts)) IN
+  [Base EXCEPT !.kind = "extract", !.api = "raw", !.conf = CF(ci), !.trees = <<t>>, !.sel = SelRender(ts),
+               !.parts = [k \in 1..Len(S) |-> [from |-> S[k], thru |-> S[k], marks |-> <<Marks(t)[S[k]]>>]]]
 (* create: the documents are merged into a new file; append: documents 2.. are appended to the existing document 1; *)
 (* appendnew: append to a file that does not exist yet = create                                                      *)
-MergeCase(md, sizes, divider) ==
+MergeCase(md, sizes, divider, api, ci) ==
   LET ts == [d \in 1..Len(sizes) |-> DocTree(d, sizes[d])] IN
-  [Base EXCEPT !.kind = "merge", !.mode = md, !.trees = ts, !.divider = divider,
+  [Base EXCEPT !.kind = "merge", !.api = api, !.conf = CF(ci), !.mode = md, !.trees = ts, !.divider = divider,
                !.exp = MergeP([d \in 1..Len(ts) |-> Marks(ts[d])], divider, Blank0)]
 ZipCase(a, b) ==
   LET ts == <<DocTree(1, a), DocTree(2, b)>> IN
-  [Base EXCEPT !.kind = "merge", !.mode = "zip", !.trees = ts, !.exp = ZipP(Marks(ts[1]), Marks(ts[2]))]
+  [Base EXCEPT !.kind = "merge", !.conf = CF(a + b), !.mode = "zip", !.trees = ts, !.exp = ZipP(Marks(ts[1]), Marks(ts[2]))]
 
 IncLists(n)  == {SelAsc(S) : S \in (SUBSET (2..(n + 1))) \ {{}}}            \* all strictly increasing lists over 2..n+1
 BadLists(n)  == {<<1>>, <<1, 3>>, <<n + 1>>, <<n + 2, n + 3>>, <<2, 2>>, <<3, 2>>}
 SampleLists(n) == {SelAsc(S) : S \in RandomSetOfSubsets(NrSamples, 3, 2..(n + 1)) \ {{}}}
 SizeTuples(k) == UNION {[1..j -> MergeSizes] : j \in 1..k}
 
+BmLists(n) == {SelAsc(S) : S \in {T \in SUBSET (1..n) : T # {} /\ Cardinality(T) <= 3}}
+ExtractSels == {<<>>, <<SelTerm("n", 1, 0, "")>>, <<SelTerm("rng", 2, 3, "")>>, <<SelTerm("even", 0, 0, "")>>,
+                <<SelTerm("suf", 3, 0, ""), SelTerm("l", 0, 0, "!")>>, <<SelTerm("n", 9, 0, "")>>}
+SumSeq(t) == FoldLeft(LAMBDA x, y : x + y, 0, t)
+
 Cases ==
-       {SplitCase(n, s) : n \in SplitNs, s \in Spans}
+       {SplitCase(n, s, "file", ci) : n \in SplitNs, s \in Spans, ci \in {1, 2}}
+  \cup {SplitCase(n, s, "raw", ci) : n \in RawNs, s \in RawSpans, ci \in {1, 2}}
   \cup UNION {{SplitNrCase(n, l) : l \in IncLists(n) \cup BadLists(n)} : n \in NrNs}
   \cup UNION {{SplitNrCase(n, l) : l \in SampleLists(n)} : n \in NrSampleNs}
-  \cup {MergeCase("create", sz, dv) : sz \in SizeTuples(MergeMax), dv \in BOOLEAN}
-  \cup {MergeCase("append", sz, dv) : sz \in {t \in SizeTuples(AppendMax + 1) : Len(t) >= 2}, dv \in BOOLEAN}
-  \cup {MergeCase("appendnew", sz, dv) : sz \in SizeTuples(2), dv \in BOOLEAN}
+  \cup UNION {{SplitBmCase(n, l, api) : l \in BmLists(n), api \in {"file", "raw"}} : n \in BmNs}
+  \cup {ExtractCase(n, ts, ci) : n \in ExtractNs, ts \in ExtractSels, ci \in {1, 2}}
+  \cup {MergeCase("create", sz, dv, "file", 1) : sz \in SizeTuples(MergeMax), dv \in BOOLEAN}
+  \cup {MergeCase("create", sz, dv, "file", ci) : sz \in SizeTuples(SmallMax), dv \in BOOLEAN, ci \in {2, 3, 4}}
+  \cup {MergeCase("create", sz, dv, "raw", ci) : sz \in SizeTuples(SmallMax), dv \in BOOLEAN, ci \in {1, 2}}
+  \cup {MergeCase("append", sz, dv, "file", SumSeq(sz)) : sz \in {t \in SizeTuples(AppendMax + 1) : Len(t) >= 2}, dv \in BOOLEAN}
+  \cup {MergeCase("appendnew", sz, dv, "file", SumSeq(sz)) : sz \in SizeTuples(2), dv \in BOOLEAN}
   \cup {ZipCase(a, b) : a \in ZipSizes, b \in ZipSizes}
 
 Init == c \in Cases /\ DocInit(<<>>)
@@ -70,10 +106,13 @@ Spec == Init /\ [][Next]_vars
 (* design properties: the parts of a split, concatenated, are the original page sequence; a merge contains every *)
 (* page of every input exactly once, in order, and blank pages only as requested dividers                          *)
 AllMarks == FlattenSeq([d \in 1..Len(c.trees) |-> Marks(c.trees[d])])
-PartsOK == c.kind \in {"split", "splitnr"} /\ c.res = "ok" =>
-             /\ FlattenSeq([k \in 1..Len(c.parts) |-> c.parts[k].marks]) = AllMarks
-             /\ \A k \in 1..Len(c.parts) : c.parts[k].from <= c.parts[k].thru /\ Len(c.parts[k].marks) = c.parts[k].thru - c.parts[k].from + 1
-             /\ c.parts[1].from = 1 /\ \A k \in 2..Len(c.parts) : c.parts[k].from = c.parts[k - 1].thru + 1
+PartsOK == /\ (c.kind \in {"split", "splitnr"} /\ c.res = "ok" =>
+                /\ FlattenSeq([k \in 1..Len(c.parts) |-> c.parts[k].marks]) = AllMarks
+                /\ c.parts[1].from = 1 /\ \A k \in 2..Len(c.parts) : c.parts[k].from = c.parts[k - 1].thru + 1)
+           /\ (c.kind = "splitbm" => \E i \in 1..(Len(AllMarks) + 1) :
+                                       FlattenSeq([k \in 1..Len(c.parts) |-> c.parts[k].marks]) = SubSeq(AllMarks, i, Len(AllMarks)))
+           /\ \A k \in 1..Len(c.parts) : /\ c.parts[k].from <= c.parts[k].thru
+                                          /\ c.parts[k].marks = SubSeq(AllMarks, c.parts[k].from, c.parts[k].thru)
 MergeOK == c.kind = "merge" =>
              /\ (c.mode # "zip" => SelectSeq(c.exp, LAMBDA m : m # Blank0) = AllMarks)
              /\ Len(SelectSeq(c.exp, LAMBDA m : m = Blank0)) = (IF c.divider THEN Len(c.trees) - 1 ELSE 0)
